@@ -8,6 +8,7 @@ CONSTANTS
   MaxSeeds = 0
   MaxSeedLen = 0
   WithTwins = FALSE
+  ResizeAlways = TRUE
   NBig = 0
   KBig = 1
   NBigMin = 1
